@@ -78,11 +78,4 @@ with wf_f (f : forest) : bool :=
     multipart.Reader over the re-serialised message; [reader_part w] stands
     for the content the reader returns for a part whose body was written as
     [w] immediately before the next delimiter line. *)
-Inductive leaf_class := TrailingCRLF | Rewrap.
-
-Definition classify_leaf (enc c : str) : option leaf_class :=
-  if str_eqb (written_content enc c) (c ++ crlf) then None
-  else if is_base64 enc && negb (already_wrapped c) then Some Rewrap
-  else Some TrailingCRLF.
-
 Definition strip2 (w : str) : str := firstn (length w - 2) w.
